@@ -41,6 +41,11 @@ ASSUMPTIONS = list(base.ASSUMPTIONS) + [
 
 def judge(op, impl, model, spec):
     sw = spec.split(" ")
+    if sw[0] != "ok" and "nested_inside_an_optional_field" in op:
+        # an unknown variant deeper inside the value of an optional field: the documented projection makes no promise for the
+        # nested enum itself, but the clause "without disturbing any sibling field" is decided by the model of the current code
+        # (the optional field as a whole becomes None, everything after it is read normally): a different answer is a failing input
+        return "ok" if impl == model else "violation"
     if sw[0] != "ok":
         # no promise (the generator should not produce such pairs): model/code agreement only
         return "ok" if impl == model and spec != "incompatible" else "corr"
